@@ -31,8 +31,8 @@ def exact_value(lit):
 def run(ctx):
     so = str_ops.StrOps()
     n = 24000 if ctx.quick else 600000
-    st, dis0, g0 = str_ops.run_t1(["str_to_man_exp", "from_str", "mpf_ctor", "mpmathify", "repr_dps", "prec_to_dps", "dps_to_prec"],
-                                  n, ctx.seed)
+    st, dis0, g0 = str_ops.run_t1(["str_to_man_exp", "from_str", "mpf_ctor", "mpmathify", "repr_dps", "prec_to_dps", "dps_to_prec",
+                                   "mpi_from_str", "iv_mpf_str", "iv_mpf_pair"], n, ctx.seed)
     recs, g = _t1.collect(so, ["from_str", "mpf_ctor"], n // 3, ctx.seed + 1, str_ops.call)
     failing, dis = [], []
     for d in dis0:
@@ -82,8 +82,39 @@ def run(ctx):
                                       "decimal_exponent": int(ex), "impl": r["impl"]}})
         else:
             decided["ok"] += 1
+    # intervals from strings: the result must contain the denoted number / range
+    irecs, gi = _t1.collect(so, ["mpi_from_str"], n // 6, ctx.seed + 2, str_ops.call)
+    decided_iv = {"ok": 0, "violates": 0, "nospec": 0}
+    for r in irecs:
+        if r["impl"] != r["model"]:
+            dis.append({"name": "T1:" + r["op"], "op": r["op"], "line": r["line"][:300], "impl": r["impl"], "model": r["model"]})
+        parts, prec = r["meta"].get("parts"), r["meta"].get("prec")
+        if parts is None or not r["impl"].startswith("P:"):
+            decided_iv["nospec"] += 1
+            continue
+        try:
+            rng = str_ops.denoted_range(parts)
+            a_s, b_s = r["impl"][2:].split(",")
+            lo, hi = dec_mpf(a_s), dec_mpf(b_s)
+            exps = [abs(int(so.L.str_to_man_exp(x.strip().lower())[1])) for x in parts[1:]]
+        except Exception:  # noqa
+            decided_iv["nospec"] += 1
+            continue
+        if rng is None or spec.is_special(lo) or spec.is_special(hi) or max(len(x) for x in parts[1:]) > 3000:
+            decided_iv["nospec"] += 1
+            continue
+        vlo = Fraction(lo[1]) * Fraction(2) ** lo[2] * (-1 if lo[0] else 1)
+        vhi = Fraction(hi[1]) * Fraction(2) ** hi[2] * (-1 if hi[0] else 1)
+        if vlo <= rng[0] and rng[1] <= vhi:
+            decided_iv["ok"] += 1
+        else:
+            decided_iv["violates"] += 1
+            failing.append({"site": "libmpi.mpi_from_str", "what": "interval from string does not contain the denoted %s" %
+                            ("number" if rng[0] == rng[1] else "range"),
+                            "input": {"literal": r["meta"]["lit"][:300], "prec": prec, "form": parts[0],
+                                      "decimal_exponent": max(exps), "impl": r["impl"][:300]}})
     cov = {
-        "evaluations": n + len(recs), "distinct_nontrivial": len(distinct) + sum(v[0] for v in st["per_op"].values()) // 2,
+        "evaluations": n + len(recs) + len(irecs), "interval_decisions": decided_iv, "distinct_nontrivial": len(distinct) + sum(v[0] for v in st["per_op"].values()) // 2,
         "rule": "literals from structured generators (digit counts 1..2000, exponents around +-400/401, ties at the rounding position, "
                 "leading/trailing zeros, signs, e/E, trailing l, whitespace, p/q, malformed stream); each is parsed/converted by the real code "
                 "and by the Lean model (bit-exact diff) and the implementation's result is decided against the exact decimal value (Fractions); "
